@@ -68,6 +68,15 @@ func (s *symCtx) condValue(cond ssa.Value) (known, val bool) {
 			}
 		}
 	case *ssa.BinOp:
+		// the emptiness test written on the length: len(p) > 0, len(p) != 0, len(p) >= 1, len(p) == 0, len(p) < 1 and their mirrors
+		if lenOf, nonEmptyWhenTrue, ok := lengthTest(c); ok {
+			ts := s.eval(lenOf)
+			if len(ts) == 1 {
+				if v, have := s.assume["nonempty:"+ts[0]]; have {
+					return true, v == nonEmptyWhenTrue
+				}
+			}
+		}
 		if c.Op == token.NEQ || c.Op == token.EQL {
 			x, y := c.X, c.Y
 			if isNilConst(x) {
@@ -91,6 +100,51 @@ func (s *symCtx) condValue(cond ssa.Value) (known, val bool) {
 		}
 	}
 	return false, false
+}
+
+// lengthTest: c compares len(x) of a string x with 0 or 1 so that it decides "x is not empty". Returns x and whether a true
+// outcome means non-empty.
+func lengthTest(c *ssa.BinOp) (ssa.Value, bool, bool) {
+	lenArg := func(v ssa.Value) ssa.Value {
+		call, ok := v.(*ssa.Call)
+		if !ok || len(call.Common().Args) != 1 {
+			return nil
+		}
+		if bi, isB := call.Common().Value.(*ssa.Builtin); !isB || bi.Name() != "len" {
+			return nil
+		}
+		if b, isBasic := call.Common().Args[0].Type().Underlying().(*types.Basic); !isBasic || b.Info()&types.IsString == 0 {
+			return nil
+		}
+		return call.Common().Args[0]
+	}
+	x, y, op := c.X, c.Y, c.Op
+	if lenArg(x) == nil && lenArg(y) != nil {
+		// mirror: k op len(s)  ==  len(s) op' k
+		x, y = y, x
+		switch op {
+		case token.LSS:
+			op = token.GTR
+		case token.GTR:
+			op = token.LSS
+		case token.LEQ:
+			op = token.GEQ
+		case token.GEQ:
+			op = token.LEQ
+		}
+	}
+	arg := lenArg(x)
+	k, isK := constInt(y)
+	if arg == nil || !isK {
+		return nil, false, false
+	}
+	switch {
+	case k == 0 && (op == token.GTR || op == token.NEQ), k == 1 && op == token.GEQ:
+		return arg, true, true
+	case k == 0 && (op == token.EQL || op == token.LEQ), k == 1 && op == token.LSS:
+		return arg, false, true
+	}
+	return nil, false, false
 }
 
 // feasible computes the blocks and edges of fn reachable under the assumptions.
